@@ -1,6 +1,11 @@
 """C18 — StringView vs std::string_view: banned NUL-terminated primitives, unsigned byte
-order, guard tables (integer small-model evaluation of the clamping/early-return prefix),
-validated position reaches the access, raw scan bounds, relational derivation, overload roles."""
+order, guard tables (small-model evaluation of the clamping/early-return prefix up to the first access),
+validated position reaches the access, raw scan bounds, relational derivation, overload roles.
+
+Verdict policy of this file: a violation is reported only for a concrete point of an evaluation (a row of the small model, a
+row of the truth table over the sign of compare(), forwarded arguments that resolve to the wrong parameters, a call of a
+C-string primitive on memory that provably belongs to a view, a relational comparison of two operands whose types are known
+to be plain char).  Whatever is not understood is recorded as 'cannot decide' (ck.deferred / dtable.Undecidable -> exit 2)."""
 from engine import ir, dtable, match, cfg as cfgm
 from engine.ir import kids, strip_casts, const_int, ref_of
 
@@ -14,199 +19,636 @@ def sig(fn):
     return "%s(%s)" % (fn.name, ",".join(p["ty"].replace("tlx::StringView", "SV").replace("unsigned long", "size_t") for p in fn.params))
 
 
-# ---------------------------------------------------------------- integer guard evaluation
+# ---------------------------------------------------------------- small-model evaluation of a StringView member
 class Stop(Exception):
+    """end of one evaluated path: kind = throw | return | range | opaque"""
     def __init__(self, kind, payload=None):
         self.kind, self.payload = kind, payload
 
 
-class GuardEval:
-    """evaluates the integer prefix of a StringView query on a small model (size_, parameters)"""
+class Fork(Exception):
+    """a branch depends on bytes of the view: the driver re-runs the path once per outcome"""
 
-    def __init__(self, fn, size, args, views):
+
+class _Break(Exception):
+    pass
+
+
+class _Continue(Exception):
+    pass
+
+
+UNSIGNED64 = ("unsigned long", "unsigned long long")
+SIGNED64 = ("long", "long long")
+FOREIGN = ("F",)
+UNINIT = ("U",)
+ITER_BEGIN = {"begin": "fwd", "cbegin": "fwd", "data": "fwd", "rbegin": "rev", "crbegin": "rev"}
+ITER_END = {"end": "fwd", "cend": "fwd", "rend": "rev", "crend": "rev"}
+ITER_FACTORIES = tuple(ITER_BEGIN) + tuple(ITER_END)
+# calls that read a block of the view through one pointer: name -> (index of the pointer arguments that may be the view, index of the length)
+BLOCK_READS = {"compare": ((0, 1), 2), "memcmp": ((0, 1), 2), "find": ((0,), 1), "memchr": ((0,), 2), "memcpy": ((1,), 2), "memmove": ((1,), 2),
+               "copy": ((1,), 2), "move": ((1,), 2), "copy_n": ((0,), 1)}
+
+
+# std algorithms that return the FIRST position of [first, last) with some property (last if there is none)
+FIRST_MATCH = ("std::search", "std::find_first_of", "std::find_if", "std::find_if_not", "std::find")
+# std algorithms that read [first, last) front to back
+RANGE_ALGOS = FIRST_MATCH + ("std::copy", "std::move", "std::equal", "std::mismatch", "std::lexicographical_compare")
+
+
+def bare_ty(t):
+    t = (t or "").strip()
+    while t.startswith("const "):
+        t = t[6:]
+    t = t.rstrip("&").strip()
+    while t.endswith("const"):
+        t = t[:-5].strip()
+    return t
+
+
+def is_P(v):
+    return isinstance(v, tuple) and v[0] == "P"
+
+
+def is_C(v):
+    return isinstance(v, tuple) and v[0] == "C"
+
+
+def is_int(v):
+    return isinstance(v, int)
+
+
+def is_Q(v):
+    return isinstance(v, tuple) and v[0] == "Q"
+
+
+def is_F(v):
+    """a pointer / object outside this view: FOREIGN, or ("Q", view parameter, offset) = a position in the memory of a
+    StringView parameter (its size is part of the small model, its bytes are data)"""
+    return v == FOREIGN or is_Q(v)
+
+
+def sval(v):
+    return v - (1 << 64) if v >> 63 else v
+
+
+class GuardEval:
+    """evaluates a StringView member on one point of the small model (size_, integer parameters, sizes of StringView
+    parameters).  Values: 64-bit integers (two's complement), ("P", dir, offset) = a position of this view (pointer, iterator or
+    reverse iterator), ("V", offset, length) = a StringView into this view, ("C", index|None) = a byte read from memory (data),
+    FOREIGN = a pointer / object that does not belong to this view.  Every byte of the view that is read is recorded in
+    self.reads as (index, length|None); a call of an algorithm on a range [first, last) of this view ends the path with
+    Stop("range").  A branch on data asks the oracle (Fork).  Anything else that is not understood ends the path with
+    Stop("opaque"): the caller must not draw a conclusion from it."""
+    MAX_ITER = 40
+
+    def __init__(self, fn, size, args, views, oracle=(), watch=None):
         self.fn = fn
         self.S = size
-        self.env = dict(args)        # did -> int
-        self.views = views           # did -> size of a StringView parameter
-        self.iters = {}              # did of an iterator local -> ("fwd"|"rev", offset) | ("end", dir)
+        self.env = dict(args)        # did -> value
+        self.views = dict(views)     # did -> size of a StringView parameter
+        self.oracle, self.oi = list(oracle), 0
+        self.reads = []
+        self.depth = 0
+        self.watch = watch           # optional (call node id, offset expr | None, length expr): evaluated when the call is reached
+        self.hits = []
 
-    def ev(self, e):
+    # ------------------------------------------------------------ helpers
+    def opaque(self, e):
+        raise Stop("opaque", e)
+
+    def index_of(self, p):
+        return p[2] if p[1] == "fwd" else (self.S - 1 - p[2]) & M64
+
+    def read(self, p, length=1, node=None, prim=None):
+        self.reads.append((self.index_of(p), length, p[1], prim))
+        return ("C", self.index_of(p)) if length == 1 else ("C", None)
+
+    def truth(self, e):
+        v = self.ev(e)
+        if is_int(v):
+            return v != 0
+        if is_C(v):
+            if self.oi < len(self.oracle):
+                self.oi += 1
+                return self.oracle[self.oi - 1]
+            raise Fork()
+        self.opaque(e)
+
+    def convert(self, v, ty, e):
+        """integer conversion to the type ty"""
+        if not is_int(v):
+            return v
+        t = bare_ty(ty)
+        if t in UNSIGNED64 or t in SIGNED64:
+            return v & M64
+        if t == "unsigned int":
+            return v & 0xFFFFFFFF
+        if t == "int":
+            v &= 0xFFFFFFFF
+            return (v | (M64 ^ 0xFFFFFFFF)) if v >> 31 else v
+        if t == "bool":
+            return int(v != 0)
+        self.opaque(e)
+
+    def mentions_view(self, e):
+        for y in ir.walk(e):
+            if y["k"] == "This":
+                return True
+            if y["k"] == "DeclRefExpr" and isinstance(self.env.get(y["ref"]["id"]), tuple) and self.env[y["ref"]["id"]][0] in ("P", "V", "C"):
+                return True
+        return False
+
+    def arg(self, a):
+        """value of a call argument; an expression that does not involve this view at all is FOREIGN"""
+        try:
+            return self.ev(a)
+        except Stop as st:
+            if st.kind != "opaque" or a is None or self.mentions_view(a):
+                raise
+            return FOREIGN
+
+    def lvalue_did(self, e):
         e = strip_casts(e)
+        while e is not None and e["k"] == "ParenExpr":
+            e = strip_casts(kids(e)[0])
+        if e is not None and e["k"] == "DeclRefExpr" and e["ref"].get("kind") in ("local", "param"):
+            return e["ref"]["id"]
+        return None
+
+    def assign(self, lhs, v, e):
+        d = self.lvalue_did(lhs)
+        if d is not None:
+            if d in self.views:
+                self.opaque(e)
+            self.env[d] = v
+            return v
+        # a store through a pointer that does not belong to this view (the output buffer of copy)
+        l0 = strip_casts(lhs)
+        tgt = match.index_parts(l0) or ((match.deref_of(l0), None) if match.deref_of(l0) is not None else None)
+        if tgt:
+            base = self.arg(tgt[0])
+            if tgt[1] is not None:
+                self.arg(tgt[1])
+            if is_F(base) or base == ("C", None):
+                return v
+        self.opaque(e)
+
+    def arith(self, op, x, y, e, signed=False):
+        if is_P(x) and is_int(y) and op in ("+", "-"):
+            return ("P", x[1], (x[2] + y if op == "+" else x[2] - y) & M64)
+        if is_int(x) and is_P(y) and op == "+":
+            return ("P", y[1], (y[2] + x) & M64)
+        if is_Q(x) and is_int(y) and op in ("+", "-"):
+            return ("Q", x[1], (x[2] + y if op == "+" else x[2] - y) & M64)
+        if is_int(x) and is_Q(y) and op == "+":
+            return ("Q", y[1], (y[2] + x) & M64)
+        if is_Q(x) and is_Q(y) and x[1] == y[1]:
+            if op == "-":
+                return (x[2] - y[2]) & M64
+            if op in ("<", ">", "<=", ">=", "==", "!="):
+                x, y, signed = x[2], y[2], False
+        if is_P(x) and is_P(y):
+            if x[1] != y[1]:
+                self.opaque(e)
+            if op == "-":
+                return (x[2] - y[2]) & M64
+            x, y, signed = x[2], y[2], False
+            if op not in ("<", ">", "<=", ">=", "==", "!="):
+                self.opaque(e)
+        if is_C(x) or is_C(y):
+            # data combined / compared with a number, a position or a foreign pointer (hit != nullptr, iter == cend(), hit - ptr_)
+            if all(is_C(v) or is_int(v) or is_P(v) or is_F(v) for v in (x, y)):
+                return ("C", None)
+            self.opaque(e)
+        if not (is_int(x) and is_int(y)):
+            self.opaque(e)
+        if op == "+":
+            return (x + y) & M64
+        if op == "-":
+            return (x - y) & M64
+        if op == "*":
+            return (x * y) & M64
+        if op in ("/", "%") and y != 0 and not (signed and ((x >> 63) or (y >> 63))):
+            return x // y if op == "/" else x % y
+        if op in ("<", ">", "<=", ">=", "==", "!="):
+            if signed:
+                x, y = sval(x), sval(y)
+            return int({"<": x < y, ">": x > y, "<=": x <= y, ">=": x >= y, "==": x == y, "!=": x != y}[op])
+        self.opaque(e)
+
+    def operand_signed(self, a, b, e):
+        ta, tb = bare_ty(a.get("ty")), bare_ty(b.get("ty"))
+        sa, sb = ta in SIGNED64 + ("int",), tb in SIGNED64 + ("int",)
+        ua, ub = ta in UNSIGNED64 + ("unsigned int", "bool"), tb in UNSIGNED64 + ("unsigned int", "bool")
+        if sa and sb:
+            return True
+        if ua and ub:
+            return False
+        return None
+
+    # ------------------------------------------------------------ expressions
+    def ev(self, e):
+        if e is None:
+            self.opaque(e)
         k = e["k"]
-        c = const_int(e)
+        if k in ("ParenExpr", "ExprWithCleanups", "MaterializeTemporaryExpr", "CXXBindTemporaryExpr", "ConstantExpr"):
+            return self.ev(kids(e)[0])
         if k in ("IntegerLiteral", "CXXBoolLiteralExpr"):
-            return c & M64 if k == "IntegerLiteral" else c
+            return self.convert(int(e["val"]) & M64, e.get("ty"), e)
+        if "cval" in e and bare_ty(e.get("ty")) in UNSIGNED64 + SIGNED64 + ("int", "unsigned int", "bool"):
+            return self.convert(int(e["cval"]) & M64, e.get("ty"), e)
+        if k in ("ImplicitCastExpr", "CStyleCastExpr", "CXXStaticCastExpr", "CXXFunctionalCastExpr", "CXXConstCastExpr") and kids(e):
+            v = self.ev(kids(e)[0])
+            if e.get("cast") in ("IntegralCast", "IntegralToBoolean") or (is_int(v) and k != "ImplicitCastExpr"):
+                return self.convert(v, e.get("ty"), e)
+            if e.get("cast") == "PointerToBoolean":
+                self.opaque(e)
+            if is_C(v):
+                return ("C", None) if e.get("cast") in ("IntegralCast", "IntegralToBoolean") or k != "ImplicitCastExpr" else v
+            return v
+        if k in ("NullPtr", "CXXNullPtrLiteralExpr", "GNUNullExpr", "LambdaExpr"):
+            return FOREIGN              # a predicate handed to an algorithm sees the bytes the algorithm shows it, nothing else
         if k == "DeclRefExpr":
             did = e["ref"]["id"]
             if did in self.env:
-                return self.env[did]
-            if e["ref"]["name"] == "npos" or c is not None:
-                return (c if c is not None else NPOS) & M64
-            raise Stop("opaque", e)
+                v = self.env[did]
+                if v == UNINIT:
+                    self.opaque(e)
+                return v
+            if did in self.views:
+                self.opaque(e)
+            if e["ref"].get("qname") == SV + "::npos":
+                return NPOS
+            self.opaque(e)
         if k == "MemberExpr":
             f = match.field_of(e)
-            if e.get("member") == "npos":
+            if e.get("member") == "npos" and e.get("owner") == SV:
                 return NPOS
-            if f and f[1] == "size_":
+            if f and e.get("owner") == SV:
                 base = strip_casts(f[0])
                 if base["k"] == "This":
-                    return self.S
+                    if f[1] == "size_":
+                        return self.S
+                    if f[1] == "ptr_":
+                        return ("P", "fwd", 0)
                 if ref_of(base) in self.views:
-                    return self.views[ref_of(base)]
-            raise Stop("opaque", e)
-        if "callee" in e:
-            name = e["callee"]["name"]
-            args = kids(e)
-            if e.get("member_call") and name in ("size", "length", "empty"):
-                obj = strip_casts(args[0])
-                sz = self.S if obj["k"] == "This" else self.views.get(ref_of(obj))
-                if sz is None:
-                    raise Stop("opaque", e)
-                return sz if name != "empty" else int(sz == 0)
-            if name in ("min", "max") and len(args) == 2:
-                a, b = self.ev(args[0]), self.ev(args[1])
-                return min(a, b) if name == "min" else max(a, b)
-            raise Stop("opaque", e)
-        if k == "UnaryOperator" and e["op"] == "!":
-            return int(not self.ev(kids(e)[0]))
-        b = match.binop(e)
-        if b and k in ("BinaryOperator",):
-            op, l, r = b
-            if op == "&&":
-                return int(bool(self.ev(l)) and bool(self.ev(r)))
-            if op == "||":
-                return int(bool(self.ev(l)) or bool(self.ev(r)))
-            x, y = self.ev(l), self.ev(r)
-            if op == "+":
-                return (x + y) & M64
-            if op == "-":
-                return (x - y) & M64
-            if op in ("<", ">", "<=", ">=", "==", "!="):
-                return int({"<": x < y, ">": x > y, "<=": x <= y, ">=": x >= y, "==": x == y, "!=": x != y}[op])
+                    if f[1] == "size_":
+                        return self.views[ref_of(base)]
+                    if f[1] == "ptr_":
+                        return ("Q", ref_of(base), 0)
+            self.opaque(e)
+        if k in ("CXXConstructExpr", "CXXTemporaryObjectExpr"):
+            return self.construct(e)
+        if k == "UnaryOperator" or (k == "CXXOperatorCallExpr" and len(kids(e)) == 1) or \
+                (k == "CXXOperatorCallExpr" and e.get("op") in ("++", "--")):
+            return self.unary(e)
         if k == "ConditionalOperator":
             c0, a, b2 = kids(e)
-            return self.ev(a) if self.ev(c0) else self.ev(b2)
-        raise Stop("opaque", e)
+            return self.ev(a) if self.truth(c0) else self.ev(b2)
+        ip = match.index_parts(e) if k in ("ArraySubscriptExpr", "CXXOperatorCallExpr") else None
+        if ip:
+            base, idx = self.ev(ip[0]), self.ev(ip[1])
+            if is_P(base) and is_int(idx):
+                return self.read(("P", base[1], (base[2] + idx) & M64), 1, e)
+            if is_F(base) and (is_int(idx) or is_C(idx)):
+                return ("C", None)
+            self.opaque(e)
+        if k in ("BinaryOperator", "CompoundAssignOperator") or (k == "CXXOperatorCallExpr" and len(kids(e)) == 2):
+            return self.binary(e)
+        if "callee" in e:
+            return self.call(e)
+        self.opaque(e)
 
+    def construct(self, e):
+        a = [x for x in kids(e) if x is not None and x["k"] != "DefaultArg"]
+        ty = bare_ty(e.get("ty"))
+        if ty == SV:
+            vals = [self.arg(x) for x in a]
+            if len(vals) == 1 and isinstance(vals[0], tuple) and vals[0][0] == "V":
+                return vals[0]
+            if len(vals) == 2 and is_P(vals[0]) and vals[0][1] == "fwd" and is_int(vals[1]):
+                return ("V", vals[0][2], vals[1])
+            if len(vals) == 2 and is_P(vals[0]) and is_P(vals[1]) and vals[0][1] == "fwd" and vals[1][1] == "fwd":
+                return ("V", vals[0][2], (vals[1][2] - vals[0][2]) & M64)
+            if vals and is_F(vals[0]) and all(is_F(v) or is_int(v) for v in vals):
+                return FOREIGN
+            self.opaque(e)
+        if len(a) == 1:
+            v = self.ev(a[0])
+            if "reverse_iterator" in ty and is_P(v):
+                if v[1] == "rev":
+                    return v
+                return ("P", "rev", (self.S - v[2]) & M64)       # reverse_iterator(it): *rit == *(it - 1)
+            if is_P(v) and (ty.endswith("*") or "iterator" in ty):
+                return v
+            if is_int(v):
+                return self.convert(v, ty, e)
+            if is_F(v):
+                return v
+        self.opaque(e)
+
+    def unary(self, e):
+        op = e.get("op")
+        x = kids(e)[0]
+        if op in ("++", "--"):
+            d = self.lvalue_did(x)
+            if d is None or d not in self.env or d in self.views:
+                self.opaque(e)
+            old = self.env[d]
+            new = self.arith("+" if op == "++" else "-", old, 1, e)
+            self.env[d] = new
+            post = bool(e.get("postfix")) if e["k"] == "UnaryOperator" else len(kids(e)) == 2
+            return old if post else new
+        if e["k"] == "CXXOperatorCallExpr" and op not in ("*", "!", "-"):
+            self.opaque(e)
+        if op == "!":
+            return int(not self.truth(x))
+        if op == "*":
+            v = self.ev(x)
+            if is_P(v):
+                return self.read(v, 1, e)
+            if is_F(v):
+                return ("C", None)
+            self.opaque(e)
+        if op == "&":
+            x0 = strip_casts(x)
+            inner = match.index_parts(x0)
+            if inner:
+                base, idx = self.ev(inner[0]), self.ev(inner[1])
+                if is_P(base) and is_int(idx):
+                    return ("P", base[1], (base[2] + idx) & M64)
+            elif match.deref_of(x0) is not None:
+                v = self.ev(match.deref_of(x0))
+                if is_P(v) or is_F(v):
+                    return v
+            elif x0["k"] == "DeclRefExpr" and not self.mentions_view(x0) and x0["ref"]["id"] not in self.views:
+                return FOREIGN
+            self.opaque(e)
+        if op in ("-", "+") and e["k"] == "UnaryOperator":
+            v = self.ev(x)
+            if is_int(v):
+                return self.convert((-v if op == "-" else v) & M64, e.get("ty"), e)
+        self.opaque(e)
+
+    def binary(self, e):
+        op = e.get("op")
+        l, r = kids(e)[0], kids(e)[1]
+        if op == ",":
+            self.ev(l)
+            return self.ev(r)
+        if op == "&&":
+            return int(self.truth(l) and self.truth(r))
+        if op == "||":
+            return int(self.truth(l) or self.truth(r))
+        if op == "=":
+            return self.assign(l, self.ev(r), e)
+        if op in ("+=", "-="):
+            d = self.lvalue_did(l)
+            if d is None or d not in self.env or d in self.views:
+                self.opaque(e)
+            v = self.arith(op[0], self.env[d], self.ev(r), e)
+            if is_int(v):
+                v = self.convert(v, l.get("ty"), e)
+            self.env[d] = v
+            return v
+        if op in ("+", "-", "*", "/", "%", "<", ">", "<=", ">=", "==", "!="):
+            x, y = self.ev(l), self.ev(r)
+            signed = False
+            if is_int(x) and is_int(y):
+                signed = self.operand_signed(l, r, e) if op not in ("+", "-", "*", "/", "%") else bare_ty(e.get("ty")) in SIGNED64 + ("int",)
+                if signed is None:
+                    if (x >> 63) or (y >> 63):
+                        self.opaque(e)
+                    signed = False
+            v = self.arith(op, x, y, e, signed)
+            if is_int(v) and op in ("+", "-", "*", "/", "%") and e["k"] != "CXXOperatorCallExpr":
+                v = self.convert(v, e.get("ty"), e)
+            return v
+        self.opaque(e)
+
+    def call(self, e):
+        name = e["callee"]["name"]
+        qn = e["callee"].get("qname") or ""
+        args = [a for a in kids(e) if a is not None and a["k"] != "DefaultArg"]
+        if len(args) != len([a for a in kids(e) if a is not None]):
+            self.opaque(e)
+        if e.get("member_call"):
+            obj = strip_casts(args[0])
+            rest = args[1:]
+            if e["callee"].get("record") == SV and obj["k"] == "This":
+                if name in ("size", "length") and not rest:
+                    return self.S
+                if name == "empty" and not rest:
+                    return int(self.S == 0)
+                if name in ITER_BEGIN and not rest:
+                    return ("P", ITER_BEGIN[name], 0)
+                if name in ITER_END and not rest:
+                    return ("P", ITER_END[name], self.S)
+                if name == "front" and not rest:
+                    return self.read(("P", "fwd", 0), 1, e)
+                if name == "back" and not rest:
+                    return self.read(("P", "fwd", (self.S - 1) & M64), 1, e)
+                if name == "operator[]" and len(rest) == 1:
+                    i = self.ev(rest[0])
+                    if is_int(i):
+                        return self.read(("P", "fwd", i), 1, e)
+                # another member of the class: understood only as an algorithm on a range [first, last) of this view
+                # or as a function of positions found before (index_of(hit), reverse_distance(crbegin(), hit))
+                vals = [self.arg(a) for a in rest]
+                if any(is_C(v) for v in vals) and all(is_C(v) or is_P(v) or is_int(v) for v in vals):
+                    return ("C", None)
+                r = self.inline(e, vals, rest)
+                if r is not NotImplemented:
+                    return r
+                return self.algorithm(e, name, qn, vals, rest)
+            if e["callee"].get("record") == SV and ref_of(obj) in self.views:
+                sz = self.views[ref_of(obj)]
+                if name in ("size", "length") and not rest:
+                    return sz
+                if name == "empty" and not rest:
+                    return int(sz == 0)
+                if name in ITER_BEGIN and ITER_BEGIN[name] == "fwd" and not rest:
+                    return ("Q", ref_of(obj), 0)
+                if name in ITER_END and ITER_END[name] == "fwd" and not rest:
+                    return ("Q", ref_of(obj), sz)
+                if name in ITER_FACTORIES and not rest:
+                    return FOREIGN
+            self.opaque(e)
+        vals = [self.arg(a) for a in args]
+        if name in ("min", "max") and qn in ("std::min", "std::max") and len(vals) == 2:
+            x, y = vals
+            if is_int(x) and is_int(y):
+                t = bare_ty((e["callee"].get("targs") or [""])[0])
+                if t in UNSIGNED64 + ("unsigned int",):
+                    return min(x, y) if name == "min" else max(x, y)
+                if t in SIGNED64 + ("int",):
+                    return (min if name == "min" else max)(x, y, key=sval)
+            self.opaque(e)
+        if qn == "std::distance" and len(vals) == 2:
+            if is_P(vals[0]) and is_P(vals[1]) and vals[0][1] == vals[1][1]:
+                return (vals[1][2] - vals[0][2]) & M64
+            if (is_P(vals[0]) or is_C(vals[0])) and (is_P(vals[1]) or is_C(vals[1])):
+                return ("C", None)
+            self.opaque(e)
+        if qn in ("std::next", "std::prev") and vals and is_P(vals[0]) and all(is_int(v) for v in vals[1:]) and len(vals) <= 2:
+            n = vals[1] if len(vals) == 2 else 1
+            return ("P", vals[0][1], (vals[0][2] + (n if qn == "std::next" else -n)) & M64)
+        return self.algorithm(e, name, qn, vals, args)
+
+    def inline(self, e, vals, args):
+        """evaluates the body of another member called on *this (a private helper): parameters are bound to the argument
+        values, a throw inside it ends the path as a throw of the caller"""
+        tu = getattr(self.fn, "tu", None)
+        cal = tu.by_did.get(e["callee"].get("did")) if tu is not None else None
+        if cal is None or cal.body is None or cal.did == self.fn.did or self.depth >= 3 or len(cal.params) != len(vals):
+            return NotImplemented
+        for prm, v, a in zip(cal.params, vals, args):
+            t = bare_ty(prm["ty"])
+            if t == SV:
+                d = ref_of(match.strip_conv(a))
+                if d not in self.views:
+                    return NotImplemented
+                self.views[prm["did"]] = self.views[d]
+            elif (prm["ty"] or "").rstrip().endswith("&") and "const" not in prm["ty"]:
+                return NotImplemented                       # an out-parameter
+            else:
+                self.env[prm["did"]] = v
+        self.depth += 1
+        try:
+            self.run(cal.body)
+        except Stop as st:
+            if st.kind == "return":
+                return st.payload[0] if st.payload[0] is not None else 0
+            raise
+        finally:
+            self.depth -= 1
+        if bare_ty(cal.d.get("ret") or e["callee"].get("ret")) == "void":
+            return 0
+        self.opaque(e)
+
+    def algorithm(self, e, name, qn, vals, args):
+        if self.watch is not None and e["id"] == self.watch[0]:
+            off = self.ev(self.watch[1]) if self.watch[1] is not None else 0
+            n = self.ev(self.watch[2])
+            if not (is_int(off) and is_int(n)):
+                self.opaque(e)
+            self.hits.append((off, n))
+        if any(isinstance(v, tuple) and v[0] == "V" for v in vals):
+            self.opaque(e)
+        ps = [i for i, v in enumerate(vals) if is_P(v)]
+        if len(ps) >= 2 and ps[:2] == [0, 1] and vals[0][1] == vals[1][1] and len(ps) == 2:
+            if qn not in RANGE_ALGOS:
+                self.opaque(e)          # what an unknown function does with [first, last) is not known (std::find_end looks for the LAST match)
+            raise Stop("range", (vals[0][1], vals[0][2], vals[1][2], qn, e))
+        if len(ps) == 1 and (("std::char_traits" in qn or name.startswith("mem") or qn in ("std::copy_n", "std::equal", "std::mismatch"))):
+            # a primitive that reads a block of bytes through one pointer into this view
+            length = None
+            if name in BLOCK_READS:
+                where, li = BLOCK_READS[name]
+                if ps[0] not in where:
+                    self.opaque(e)
+                if li < len(vals) and is_int(vals[li]):
+                    length = vals[li]
+            self.read(vals[ps[0]], length, e, name if length is not None else None)
+            return ("C", None)
+        if not ps and any(is_C(v) for v in vals) and all(is_C(v) or is_int(v) or is_F(v) for v in vals):
+            return ("C", None)          # a function of bytes that were read (char_traits::eq / find(set, n, byte) / tolower ...)
+        self.opaque(e)
+
+    # ------------------------------------------------------------ statements
     def run(self, s):
+        if s is None:
+            return
         k = s["k"]
         if k == "CompoundStmt":
             for c in kids(s):
                 self.run(c)
             return
+        if k == "NullStmt":
+            return
         if k == "IfStmt":
-            c, t, e = kids(s)
-            if self.ev(c):
+            if "init" in s or "condvar" in s:
+                self.opaque(s)
+            c, t, e = (kids(s) + [None])[:3]
+            if self.truth(c):
                 self.run(t)
             elif e is not None:
                 self.run(e)
             return
         if k == "ReturnStmt":
-            raise Stop("return", kids(s)[0] if kids(s) else None)
+            raise Stop("return", (self.ev(kids(s)[0]) if kids(s) and kids(s)[0] is not None else None, s))
         if k == "CXXThrowExpr":
             raise Stop("throw", s)
         if k == "DeclStmt":
             for v in kids(s):
-                if kids(v):
-                    try:
-                        self.env[v["did"]] = self.ev(kids(v)[0])
-                    except Stop as st:
-                        if st.kind == "opaque":
-                            it = iter_value(self, kids(v)[0])
-                            if it is not None:
-                                self.iters[v["did"]] = it       # a named position of this view, the scan comes later
-                                continue
-                            raise Stop("scan", kids(v)[0])
-                        raise
+                if v["k"] != "VarDecl":
+                    self.opaque(s)
+                if (v.get("ty") or "").rstrip().endswith("&"):
+                    self.opaque(s)              # a reference alias: not followed here
+                self.env[v["did"]] = self.ev(kids(v)[0]) if kids(v) and kids(v)[0] is not None else UNINIT
             return
         if k in ("ForStmt", "WhileStmt", "DoStmt"):
-            raise Stop("scan", s)
-        if k in ("CXXStaticCastExpr",) and s.get("ty") == "void":
+            if "condvar" in s:
+                self.opaque(s)
+            init, cond, inc, body = match.loop_parts(s)
+            if init is not None:
+                self.run(init)
+            first = k == "DoStmt"
+            for _ in range(self.MAX_ITER):
+                if not first and cond is not None and not self.truth(cond):
+                    return
+                first = False
+                try:
+                    self.run(body)
+                except _Break:
+                    return
+                except _Continue:
+                    pass
+                if inc is not None:
+                    self.ev(inc)
+            self.opaque(s)
+        if k == "BreakStmt":
+            raise _Break()
+        if k == "ContinueStmt":
+            raise _Continue()
+        if k in ("CXXStaticCastExpr", "CStyleCastExpr", "CXXFunctionalCastExpr") and bare_ty(s.get("ty")) == "void":
             return
-        b = match.binop(s, ("=", "-=", "+="))
-        if b and strip_casts(b[1])["k"] == "DeclRefExpr":
-            v = self.ev(b[2])
-            did = ref_of(b[1])
-            if b[0] == "=":
-                self.env[did] = v
-            elif b[0] == "-=":
-                self.env[did] = (self.env[did] - v) & M64
-            else:
-                self.env[did] = (self.env[did] + v) & M64
-            return
-        raise Stop("scan", s)
+        if k in ("SwitchStmt", "GotoStmt", "LabelStmt", "CXXTryStmt", "CXXForRangeStmt", "AttributedStmt"):
+            self.opaque(s)
+        self.ev(s)
 
 
-ITER_FACTORIES = ("cbegin", "begin", "crbegin", "rbegin", "cend", "end", "crend", "rend")
-
-
-def iter_value(ge, e):
-    """("fwd"|"rev", offset) / ("end", dir) if e only names a position of this view (cbegin() + E, crend(), a copy of an
-    iterator local): no algorithm is called in it"""
-    e0 = match.strip_conv(e)
-    while e0 is not None and e0["k"] in ("CXXConstructExpr", "MaterializeTemporaryExpr", "ExprWithCleanups", "CXXBindTemporaryExpr", "ParenExpr") and len(kids(e0)) == 1:
-        e0 = match.strip_conv(kids(e0)[0])
-    if e0 is None:
-        return None
-    for y in ir.walk(e0):
-        if "callee" in y and not (y["callee"]["name"] in ITER_FACTORIES or y.get("op") in ("+",)):
-            return None
-    d = ref_of(e0)
-    if d is not None and d in ge.iters:
-        return ge.iters[d]
-    b = match.binop(e0, ("+",))
-    try:
-        if b:
-            base = iter_value(ge, b[1])
-            if base is not None and base[0] in ("fwd", "rev"):
-                return (base[0], (base[1] + ge.ev(b[2])) & M64)
-            return None
-    except Stop:
-        return None
-    c = match.call_named(e0, ITER_FACTORIES)
-    if c is not None and "callee" in e0 and e0.get("member_call") and strip_casts(kids(e0)[0])["k"] == "This":
-        nm = c["callee"]["name"]
-        if nm in ("cbegin", "begin"):
-            return ("fwd", 0)
-        if nm in ("crbegin", "rbegin"):
-            return ("rev", 0)
-        return ("end", "rev" if nm.startswith(("cr", "r")) else "fwd")
-    return None
-
-
-def scan_start(ge, node):
-    """index at which a scan over this view starts: from cbegin()+E / crbegin()+E / ptr_+E inside node"""
-    for y in ir.walk(node):
-        b = match.binop(y, ("+",))
-        if not b:
-            continue
-        base = strip_casts(b[1])
-        if ref_of(base) in ge.iters and ge.iters[ref_of(base)][0] in ("fwd", "rev"):
-            try:
-                it = ge.iters[ref_of(base)]
-                return it[0], (it[1] + ge.ev(b[2])) & M64
-            except Stop:
-                continue
-        c = match.call_named(base, ("cbegin", "begin", "crbegin", "rbegin"))
+def explore(fn, S, args, views, watch=None, max_forks=6):
+    """all paths of fn on one point of the small model: list of (kind, payload, reads, hits); kind = return | throw | range |
+    fallthrough | opaque | cut (fork limit)"""
+    out = []
+    stack = [()]
+    while stack:
+        orc = stack.pop()
+        ge = GuardEval(fn, S, args, views, orc, watch)
         try:
-            if c is not None and "callee" in base and strip_casts(kids(base)[0])["k"] == "This":
-                off = ge.ev(b[2])
-                return ("rev" if c["callee"]["name"] in ("crbegin", "rbegin") else "fwd"), off
-            if match.this_field(base) == "ptr_":
-                return "fwd", ge.ev(b[2])
-        except Stop:
-            continue
-    for y in ir.walk(node):
-        c = match.call_named(y, ("cbegin", "begin", "crbegin", "rbegin"))
-        if c is not None and "callee" in y and y.get("member_call") and strip_casts(kids(y)[0])["k"] == "This":
-            return ("rev" if c["callee"]["name"] in ("crbegin", "rbegin") else "fwd"), 0
-        if y["k"] == "DeclRefExpr" and y["ref"]["id"] in ge.iters and ge.iters[y["ref"]["id"]][0] in ("fwd", "rev"):
-            return ge.iters[y["ref"]["id"]]
-    return None
+            ge.run(fn.body)
+            out.append(("fallthrough", None, ge.reads, ge.hits))
+        except Stop as st:
+            out.append((st.kind, st.payload, ge.reads, ge.hits))
+        except (_Break, _Continue):
+            out.append(("opaque", None, ge.reads, ge.hits))
+        except Fork:
+            if len(orc) >= max_forks:
+                out.append(("cut", None, ge.reads, ge.hits))
+            else:
+                stack.append(orc + (True,))
+                stack.append(orc + (False,))
+    return out
+
+
+DIRECTION = {"find": "fwd", "rfind": "rev", "find_first_of": "fwd", "find_last_of": "rev", "find_first_not_of": "fwd", "find_last_not_of": "rev"}
 
 
 def spec(name, S, pos, n, ssz):
-    """std::string_view guard semantics: ('throw',) | ('ret', v) | ('scan', dir, start_index) | ('sub', off, len)"""
+    """std::string_view semantics on the small model: ('throw',) | ('ret', v) | ('access', i) | ('sub', off, len) |
+    ('copy', off, len) | ('scan', dir, index of the first candidate)"""
     if name == "at":
         return ("throw",) if pos >= S else ("access", pos)
     if name == "substr":
@@ -225,7 +667,7 @@ def spec(name, S, pos, n, ssz):
         p = min(pos, S - ssz)
         if ssz == 0:
             return ("ret", p)
-        return ("scan", "fwd", p)
+        return ("scan", "rev", p)
     if name == "find_first_of":
         if pos >= S or ssz == 0:
             return ("ret", NPOS)
@@ -250,209 +692,366 @@ def spec(name, S, pos, n, ssz):
     return None
 
 
+def guard_roles(fn, name):
+    """parameter roles by position and type, as fixed by the std::string_view interface (names are free)"""
+    tys = [bare_ty(p["ty"]) for p in fn.params]
+    want = {"at": ["I"], "substr": ["I", "I"], "copy": ["char *", "I", "I"]}.get(name, [SV, "I"])
+    if len(tys) != len(want) or any((w == "I" and t not in UNSIGNED64) or (w != "I" and t != w) for t, w in zip(tys, want)):
+        raise dtable.Undecidable("%s: parameters of %s are not those of the std::string_view member: %s" % (fn.loc, name, tys))
+    d = [p["did"] for p in fn.params]
+    if name == "at":
+        return {"pos": d[0]}
+    if name == "substr":
+        return {"pos": d[0], "n": d[1]}
+    if name == "copy":
+        return {"out": d[0], "n": d[1], "pos": d[2]}
+    return {"s": d[0], "pos": d[1]}
+
+
+def outcome(name, paths):
+    """what the member does on one point of the small model, from the evaluated paths: an outcome tuple like spec()'s,
+    ('scan', dir|None, index, 'range'|'read', info), or ('opaque', why)"""
+    lead = paths[0]
+    if not any(p[2] for p in paths):
+        if len(paths) != 1:
+            return ("opaque", "paths differ without a read")
+        kind, payload = lead[0], lead[1]
+        if kind == "throw":
+            return ("throw",)
+        if kind == "range":
+            d, o1, o2, qn, node = payload
+            if name == "copy":
+                if qn in ("std::copy", "std::move") and d == "fwd":
+                    return ("copy", o1, (o2 - o1) & M64)
+                return ("opaque", "range handed to %s" % qn)
+            if name in DIRECTION and qn in FIRST_MATCH:
+                return ("scan", d, o1 if d == "fwd" else (lead_S(lead) - 1 - o1) & M64, "range", (o1, o2, qn))
+            return ("opaque", "range handed to %s" % qn)
+        if kind == "return":
+            v = payload[0]
+            if is_int(v) and name not in ("at", "substr"):
+                return ("ret", v)
+            if name == "substr" and isinstance(v, tuple) and v[0] == "V":
+                return ("sub", v[1], v[2])
+            return ("opaque", "returned value not understood")
+        return ("opaque", "%s at line %s" % ({"opaque": "construct not understood", "cut": "too many data-dependent branches"}.get(kind, kind),
+                                           payload.get("l", "?") if isinstance(payload, dict) else "?"))
+    r1 = lead[2][0]
+    if any(not p[2] or p[2][0][:2] != r1[:2] for p in paths):
+        return ("opaque", "first read differs between paths")
+    if name == "at":
+        if len(paths) == 1 and lead[0] == "return" and lead[1][0] == ("C", r1[0]) and len(lead[2]) == 1:
+            return ("access", r1[0])
+        return ("opaque", "element access not understood")
+    if name == "copy":
+        if len(paths) != 1 or lead[0] != "return":
+            return ("opaque", "copy loop not understood")
+        rd = lead[2]
+        if len(rd) == 1 and rd[0][1] != 1:
+            if rd[0][1] is not None and rd[0][3] in ("copy_n", "memcpy", "memmove", "copy", "move"):
+                return ("copy", rd[0][0], rd[0][1])
+            return ("opaque", "block read by an unknown primitive")
+        idxs = sorted(r[0] for r in rd)
+        if all(r[1] == 1 for r in rd) and all(x == idxs[0] + i for i, x in enumerate(idxs)):
+            return ("copy", idxs[0], len(idxs))             # every byte of [first, first + count) read once, in any order
+        return ("opaque", "copy loop does not read consecutive bytes")
+    if name in DIRECTION:
+        # the read that follows the first one at another place of the view tells the direction of the scan
+        seconds = {next(r[0] for r in p[2] if r[0] != r1[0]) for p in paths if any(r[0] != r1[0] for r in p[2])}
+        d = None
+        if seconds and all(x > r1[0] for x in seconds):
+            d = "fwd"
+        elif seconds and all(x < r1[0] for x in seconds):
+            d = "rev"
+        elif seconds:
+            return ("opaque", "scan order not understood")
+        return ("scan", d, r1[0], "read", r1[1])
+    return ("opaque", "read in %s" % name)
+
+
+def lead_S(path):
+    return path[4]
+
+
+def judge(name, got, want, S, ssz):
+    """'ok' | 'bad' (the evaluated behaviour differs from std::string_view's for some content) | 'undecided'"""
+    if got[0] == "opaque":
+        return "undecided"
+    if name in ("at", "substr"):
+        return "ok" if got == want else "bad"
+    if name == "copy":
+        if got[0] == "ret":
+            return "ok" if want[0] == "copy" and want[2] == 0 and got[1] == 0 else "bad"
+        if got[0] == "copy" and want[0] == "copy" and got[2] == 0 and want[2] == 0:
+            return "ok"
+        return "ok" if got == want else "bad"
+    # find family
+    if got[0] == "throw":
+        return "bad"
+
+    def fits(first_index_or_off, rng_len):
+        return name not in ("find", "rfind") or rng_len >= ssz
+    if got[0] == "ret":
+        if want[0] == "ret":
+            return "ok" if got[1] == want[1] else "bad"
+        if name == "find" and ssz > S - want[2]:
+            return "ok" if got[1] == NPOS else "bad"       # the pattern cannot fit behind pos: npos whatever the bytes are
+        return "bad"                                         # a fixed answer where the answer depends on the bytes
+    _, d, idx, kind, info = got
+    forced = None                                            # the scan's answer if it does not depend on the bytes
+    if kind == "range":
+        o1, o2, qn = info
+        if o1 > S or o2 > S:
+            return "bad"                                     # the range handed to the algorithm leaves the view
+        if o2 != S:
+            return "undecided"
+        if ssz == 0:
+            if o1 < S and qn == "std::search":
+                forced = idx
+            elif qn == "std::find_first_of":
+                forced = NPOS
+            else:
+                return "undecided"
+        elif o1 == S or not fits(idx, S - o1):
+            forced = NPOS
+        if name == "rfind" and d == "rev" and ssz >= 1:
+            idx = (idx - (ssz - 1)) & M64                    # a reverse range starts at the last byte of the first candidate
+    else:
+        ln = info
+        if idx > S or (ln == 1 and idx >= S) or (ln is not None and ln > S - idx):
+            return "bad"                                     # reads bytes outside the view
+        if ln is None and idx == S:
+            return "undecided"
+        if ssz == 0:
+            return "undecided"
+    if want[0] == "ret":
+        if forced is not None:
+            return "ok" if forced == want[1] else "bad"
+        return "bad" if kind == "range" else "undecided"
+    wforced = NPOS if (name == "find" and ssz > S - want[2]) else None
+    if forced is not None or wforced is not None:
+        if forced == wforced:
+            return "ok"
+        return "bad" if kind == "range" else "undecided"
+    return "ok" if idx == want[2] and (d is None or d == want[1]) else "bad"
+
+
 def check_guards(ck, tu):
     fns = {}
     for fn in tu.find(record=SV):
-        if fn.name in ("at", "substr", "copy") or (fn.name in ("find", "rfind", "find_first_of", "find_last_of", "find_first_not_of", "find_last_not_of")
-                                                   and fn.params and "tlx::StringView" in fn.params[0]["ty"]):
+        if fn.name in ("at", "substr", "copy") or (fn.name in DIRECTION and fn.params and bare_ty(fn.params[0]["ty"]) == SV):
             fns[fn.name] = fn
     ck.require(len(fns) == 9, "StringView guard functions not all instantiated: %s" % sorted(fns))
     for name, fn in sorted(fns.items()):
-        roles = {}
-        for p in fn.params:
-            if "tlx::StringView" in p["ty"]:
-                roles["s"] = p["did"]
-            elif p["name"] in ("pos",):
-                roles["pos"] = p["did"]
-            elif p["name"] in ("n",):
-                roles["n"] = p["did"]
+        roles = guard_roles(fn, name)
         cases = 0
         bad = None
+        undecided = None
         for S in (0, 1, 2, 3):
             for pos in (0, 1, 2, 3, 4, NPOS - 1, NPOS):
                 for n in ((0, 1, 2, 5, NPOS) if "n" in roles else (0,)):
                     for ssz in ((0, 1, 2, 4) if "s" in roles else (1,)):
                         cases += 1
-                        args = {}
-                        if "pos" in roles:
-                            args[roles["pos"]] = pos
+                        args = {roles["pos"]: pos}
                         if "n" in roles:
                             args[roles["n"]] = n
-                        ge = GuardEval(fn, S, args, {roles["s"]: ssz} if "s" in roles else {})
+                        if "out" in roles:
+                            args[roles["out"]] = FOREIGN
+                        paths = [p + (S,) for p in explore(fn, S, args, {roles["s"]: ssz} if "s" in roles else {})]
                         want = spec(name, S, pos, n, ssz)
-                        try:
-                            ge.run(fn.body)
-                            got = ("fallthrough",)
-                        except Stop as st:
-                            if st.kind == "throw":
-                                got = ("throw",)
-                            elif st.kind == "return":
-                                e = st.payload
-                                try:
-                                    got = ("ret", ge.ev(e))
-                                except Stop:
-                                    es = strip_casts(e)
-                                    if name == "substr" and es["k"] in ("CXXConstructExpr", "CXXTemporaryObjectExpr") and len(kids(es)) == 2:
-                                        off = scan_offset(ge, kids(es)[0])
-                                        try:
-                                            ln = ge.ev(kids(es)[1])
-                                        except Stop:
-                                            ln = None
-                                        got = ("sub", off, ln)
-                                    elif name == "at":
-                                        p = match.index_parts(e)
-                                        got = ("access", ge.ev(p[1])) if p and match.this_field(p[0]) == "ptr_" else ("opaque",)
-                                    else:
-                                        ss = scan_start(ge, e)
-                                        got = ("scan", ss[0], (S - 1 - ss[1]) & M64 if ss and ss[0] == "rev" else ss[1]) if ss else ("opaque",)
-                            elif st.kind == "scan":
-                                node = st.payload
-                                if name == "copy":
-                                    cp = [y for y in ir.walk(node) if "callee" in y and y["callee"]["name"] in ("copy", "copy_n", "memcpy")]
-                                    got = ("opaque",)
-                                    if cp:
-                                        a = kids(cp[0])
-                                        nm_ = cp[0]["callee"]["name"]
-                                        if nm_ == "copy":
-                                            o1 = scan_offset(ge, a[0])
-                                            o2 = scan_offset(ge, a[1])
-                                            ln_ = (o2 - o1) & M64 if o1 is not None and o2 is not None else None
-                                        else:
-                                            # copy_n(first, n, out) / memcpy(out, first, n)
-                                            o1 = scan_offset(ge, a[0] if nm_ == "copy_n" else a[1])
-                                            try:
-                                                ln_ = ge.ev(a[1] if nm_ == "copy_n" else a[2])
-                                            except Stop:
-                                                ln_ = None
-                                        got = ("copy", o1, ln_)
-                                else:
-                                    ss = scan_start(ge, node)
-                                    got = ("scan", ss[0], (S - 1 - ss[1]) & M64 if ss and ss[0] == "rev" else ss[1]) if ss else ("opaque",)
-                            else:
-                                got = ("opaque",)
-                        if got == ("opaque",):
-                            raise dtable.Undecidable("%s: guard prefix of %s not understood" % (fn.loc, name))
-                        # a scan over an empty range yields npos - provided it starts at the (only) valid position of the empty view
-                        if got[0] == "scan" and want[0] == "ret" and want[1] == NPOS and S == 0:
-                            raw = (S - 1 - got[2]) & M64 if got[1] == "rev" else got[2]
-                            if raw == 0:
-                                continue
-                            if bad is None:
-                                bad = (S, pos, n, ssz, ("scan", got[1], got[2]), want)
-                            continue
-                        if name == "copy" and got[0] == "copy" and want[0] == "copy" and want[2] == 0 and got[2] == 0:
-                            continue
-                        if got != want and bad is None:
+                        got = outcome(name, paths)
+                        verdict = judge(name, got, want, S, ssz)
+                        if verdict == "bad" and bad is None:
                             bad = (S, pos, n, ssz, got, want)
+                        elif verdict == "undecided" and undecided is None:
+                            undecided = (S, pos, n, ssz, got)
+
+        def f(v):
+            return "npos" if v == NPOS else "npos-1" if v == NPOS - 1 else str(v)
         if bad:
             S, pos, n, ssz, got, want = bad
-
-            def f(v):
-                return "npos" if v == NPOS else "npos-1" if v == NPOS - 1 else str(v)
             ck.violation("GUARD-TABLES", fn.qname, sig(fn),
                          "%s on a view of size %d with pos=%s%s%s behaves as %s where std::string_view requires %s"
                          % (name, S, f(pos), (", n=" + f(n)) if "n" in roles else "", (", argument size=%d" % ssz) if "s" in roles else "",
                             fmt_out(got), fmt_out(want)), fn.loc)
+        elif undecided:
+            S, pos, n, ssz, got = undecided
+            raise dtable.Undecidable("%s: guard prefix of %s not understood (size %d, pos=%s%s%s: %s)"
+                                     % (fn.loc, name, S, f(pos), (", n=" + f(n)) if "n" in roles else "", (", argument size=%d" % ssz) if "s" in roles else "",
+                                        got[1] if got[0] == "opaque" else fmt_out(got)))
         else:
             ck.ok("GUARD-TABLES", SV + "::" + sig(fn), "%d small-model cases (size 0..3, pos incl. npos, n, argument size): throw / early return / clamped scan start agree with std::string_view" % cases,
                   sample=dict(rule="GUARD-TABLES", fn=sig(fn), cases=cases))
             ck.states += cases
 
 
-def scan_offset(ge, e):
-    """offset relative to data() of an expression data() [+ E [+ F]]"""
-    e = strip_casts(e)
-    c = match.call_named(e, ("data", "begin", "cbegin"))
-    if (c is not None and "callee" in e) or match.this_field(e) == "ptr_":
-        return 0
-    b = match.binop(e, ("+",))
-    if b:
-        base = scan_offset(ge, b[1])
-        if base is not None:
-            try:
-                return (base + ge.ev(b[2])) & M64
-            except Stop:
-                return None
-    return None
-
-
 def fmt_out(o):
     def f(v):
-        return "npos" if v == NPOS else str(v)
+        return "npos" if v == NPOS else "?" if v is None else str(v)
     if o[0] == "ret":
         return "return %s" % f(o[1])
     if o[0] == "scan":
-        return "%s scan from index %s" % ("backward" if o[1] == "rev" else "forward", f(o[2]))
+        return "%sscan from index %s" % ({"rev": "backward ", "fwd": "forward "}.get(o[1], ""), f(o[2]))
     if o[0] in ("sub", "copy"):
-        return "%s(offset %s, length %s)" % (o[0], f(o[1]) if o[1] is not None else "?", f(o[2]) if o[2] is not None else "?")
-    return str(o)
+        return "%s(offset %s, length %s)" % (o[0], f(o[1]), f(o[2]))
+    if o[0] == "access":
+        return "access to byte %s" % f(o[1])
+    return str(o[0])
 
 
 # ---------------------------------------------------------------- other rules
+CAST_KINDS = ("ImplicitCastExpr", "CStyleCastExpr", "CXXStaticCastExpr", "CXXFunctionalCastExpr", "CXXReinterpretCastExpr", "CXXConstCastExpr", "ParenExpr")
+UNSIGNED_TYPES = ("unsigned char", "unsigned short", "unsigned int", "unsigned long", "unsigned long long", "unsigned", "bool",
+                  "uint8_t", "std::uint8_t", "uint16_t", "std::uint16_t", "uint32_t", "std::uint32_t", "uint64_t", "std::uint64_t", "size_t", "std::size_t")
+SIGNED_TYPES = ("char", "signed char", "short", "int", "long", "long long", "int8_t", "std::int8_t", "int32_t", "std::int32_t", "ptrdiff_t", "std::ptrdiff_t")
+VIEW_DATA_CALLS = ("data",) + ITER_FACTORIES
+
+
+def local_defs(fn):
+    """declaration id -> list of expressions that may define the variable (initialisers, right-hand sides, operands of += / ++)"""
+    defs = {}
+    for y in fn.nodes():
+        if y["k"] == "VarDecl" and y.get("did") is not None and kids(y) and kids(y)[0] is not None:
+            defs.setdefault(y["did"], []).append(kids(y)[0])
+        bq = match.binop(y, ("=", "+=", "-=")) if y["k"] in ("BinaryOperator", "CompoundAssignOperator", "CXXOperatorCallExpr") else None
+        if bq and ref_of(bq[1]) is not None:
+            defs.setdefault(ref_of(bq[1]), []).append(bq[2])
+    return defs
+
+
+def pointer_origin(fn, e, defs, seen=()):
+    """where a pointer handed to a C-string primitive comes from: 'view' (memory of a StringView: ptr_ / data() / begin() of
+    any view, possibly through locals and offsets), 'cstr' (a const char* parameter or a string literal: NUL-terminated by
+    contract, not a view) or 'unknown'"""
+    out = set()
+    for y in ir.walk(e):
+        k = y["k"]
+        if k == "MemberExpr" and y.get("member") == "ptr_" and y.get("owner") == SV:
+            out.add("view")
+        elif k == "This":
+            out.add("view")
+        elif "callee" in y and y["callee"].get("record") == SV and y["callee"]["name"] in VIEW_DATA_CALLS:
+            out.add("view")
+        elif k == "StringLiteral":
+            out.add("cstr")
+        elif k == "DeclRefExpr" and y["ref"].get("kind") in ("param", "local"):
+            d = y["ref"]["id"]
+            t = bare_ty(y.get("ty"))
+            if SV in t:
+                out.add("view")
+                continue
+            if not t.endswith("*"):
+                continue                                   # an integer offset does not change where the pointer points into
+            if d in seen:
+                continue
+            sub = [pointer_origin(fn, r, defs, seen + (d,)) for r in defs.get(d, [])]
+            if y["ref"]["kind"] == "param" and t in ("const char *", "char *"):
+                sub.append("cstr")
+            out.update(sub or ["unknown"])
+        elif "callee" in y and k != "CXXOperatorCallExpr":
+            out.add("unknown")
+    if "view" in out:
+        return "view"
+    return "cstr" if out == {"cstr"} else "unknown"
+
+
+def cast_chain(n):
+    """(types of the conversions applied on top of the core expression, core expression)"""
+    tys = []
+    while n is not None and n["k"] in CAST_KINDS and kids(n):
+        if n["k"] != "ParenExpr":
+            tys.append((bare_ty(n.get("ty")), n["k"] != "ImplicitCastExpr"))
+        n = kids(n)[0]
+    return tys, n
+
+
+def byte_order_of(x):
+    """how a relational comparison orders two bytes read from memory: 'signed' | 'unsigned' | 'unknown' | None (not a
+    comparison of two plain-char reads)"""
+    sides = []
+    for o in kids(x):
+        tys, core = cast_chain(o)
+        if core is None or bare_ty(core.get("ty")) != "char" or not (core["k"] == "ArraySubscriptExpr" or (core["k"] == "UnaryOperator" and core.get("op") == "*")):
+            return None
+        kind = "signed"
+        for t, explicit in reversed(tys):                   # innermost conversion first: it fixes how the byte is widened
+            if t in UNSIGNED_TYPES:
+                kind = "unsigned"
+                break
+            if t in SIGNED_TYPES:
+                continue
+            kind = "unknown"
+            break
+        sides.append(kind)
+    if sides[0] == sides[1]:
+        return sides[0]
+    return "unknown"
+
+
 def check_primitives(ck, tu):
     n = 0
     fns = [f for f in tu.functions if f.record == SV or (f.record is None and f.qname.startswith("tlx::operator") and any("StringView" in p["ty"] for p in f.params))]
     for fn in fns:
         n += 1
+        defs = None
         for x in fn.nodes():
-            if "callee" in x and x["callee"]["name"] in CSTR_BANNED:
-                ck.violation("NO-CSTR-PRIMITIVE", fn.qname, sig(fn) + ":" + x["callee"]["name"],
-                             "%s treats the length-delimited view as NUL-terminated: bytes after an embedded NUL are ignored" % x["callee"]["name"], fn.nloc(x))
-            if "callee" in x and x["callee"]["name"] == "strlen":
-                okk = fn.kind == "ctor" and len(fn.params) == 1 and fn.params[0]["ty"] == "const char *"
-                if not okk:
-                    ck.violation("NO-CSTR-PRIMITIVE", fn.qname, sig(fn) + ":strlen", "strlen outside the const char* constructor", fn.nloc(x))
+            if "callee" in x and x["callee"]["name"] in CSTR_BANNED + ("strlen",):
+                nm = x["callee"]["name"]
+                defs = defs if defs is not None else local_defs(fn)
+                origins = [pointer_origin(fn, a, defs) for a in kids(x) if a is not None and (bare_ty(a.get("ty")).endswith("*") or bare_ty(a.get("ty")).endswith("]"))]
+                if "view" in origins:
+                    ck.violation("NO-CSTR-PRIMITIVE", fn.qname, sig(fn) + ":" + nm,
+                                 "%s treats the length-delimited view as NUL-terminated: bytes after an embedded NUL are ignored" % nm if nm != "strlen" else
+                                 "strlen measures the memory of a view: it stops at an embedded NUL and runs past the end of a view that is not NUL-terminated", fn.nloc(x))
+                elif not origins or "unknown" in origins:
+                    ck.deferred.append("%s: origin of the pointer handed to %s in %s not understood" % (fn.nloc(x), nm, sig(fn)))
+                # else: every pointer is a const char* parameter / literal - a C string by contract, not a view (what the const char* constructor does)
             if "callee" in x and x["callee"]["name"] == "lexicographical_compare" and len(kids(x)) == 4:
-                ck.violation("BYTE-ORDER-UNSIGNED", fn.qname, sig(fn),
-                             "std::lexicographical_compare on char iterators orders bytes as (signed) char; std::string_view orders them as unsigned char (char_traits)", fn.nloc(x))
+                t = bare_ty(kids(x)[0].get("ty")) if kids(x)[0] is not None else ""
+                if "unsigned char" in t or "uint8_t" in t:
+                    pass
+                elif "char" in t:
+                    ck.violation("BYTE-ORDER-UNSIGNED", fn.qname, sig(fn),
+                                 "std::lexicographical_compare on char iterators orders bytes as (signed) char; std::string_view orders them as unsigned char (char_traits)", fn.nloc(x))
             # hand-written ordering of two bytes read from memory as plain char
             if x["k"] == "BinaryOperator" and x.get("op") in ("<", ">", "<=", ">="):
-                ops = [strip_casts(o) for o in kids(x)]
-                def is_char_read(o):
-                    t = (o.get("ty") or "").replace("const ", "").strip()
-                    return t == "char" and (o["k"] == "ArraySubscriptExpr" or (o["k"] == "UnaryOperator" and o.get("op") == "*"))
-                # an explicit conversion to unsigned char in between makes the operand type unsigned: strip_casts removed it, so look at the direct children
-                direct = [(k.get("ty") or "") for k in kids(x)]
-                converted = any(z["k"] in ("CXXStaticCastExpr", "CStyleCastExpr", "CXXFunctionalCastExpr") and "unsigned char" in (z.get("ty") or "")
-                                for k in kids(x) for z in ir.walk(k))
-                if all(is_char_read(o) for o in ops) and not converted:
+                order = byte_order_of(x)
+                if order == "signed":
                     ck.violation("BYTE-ORDER-UNSIGNED", fn.qname, sig(fn) + ":" + dtable.describe(x)[:40],
                                  "two bytes of the views are ordered as plain (signed) char: %s; std::string_view orders them as unsigned char, so 0x80..0xFF sort "
                                  "after ASCII" % dtable.describe(x)[:60], fn.nloc(x))
+                elif order == "unknown":
+                    ck.deferred.append("%s: byte comparison %s in %s: signedness of the operands not understood" % (fn.nloc(x), dtable.describe(x)[:60], sig(fn)))
             # raw memory primitives on the view: (ptr_ + a, len) must stay inside [0, size_)
             if "callee" in x and x["callee"]["name"] in ("memchr", "memcmp", "memcpy", "compare", "find") and ("std::char_traits" in x["callee"]["qname"] or x["callee"]["name"].startswith("mem")):
-                check_scan_bound(ck, fn, x)
+                ck.guarded(lambda: check_scan_bound(ck, fn, x))
     ck.ok("NO-CSTR-PRIMITIVE", "StringView members and operators", "%d functions scanned for NUL-terminated primitives" % n)
     ck.ok("BYTE-ORDER-UNSIGNED", "StringView members and operators", "%d functions scanned for signed byte ordering" % n)
 
 
 def scan_bound_grid(fn, call, base_off, ln):
-    """the call's (offset, length) evaluated on the small model for every combination of sizes and integer parameters
-    that reaches it: -> None (all inside), (S, off, len, params) of a combination that runs past the view, or "?" """
-    ints = [p for p in fn.params if "tlx::StringView" not in p["ty"] and any(t in p["ty"] for t in ("unsigned long", "size_t", "size_type"))]
-    views = [p for p in fn.params if "tlx::StringView" in p["ty"]]
-    ids = {y["id"] for y in ir.walk(call)}
+    """the call's (offset, length) evaluated on the small model whenever an evaluated path reaches the call (short-circuit
+    conditions, early returns and loops included): -> None (all inside), (S, off, len, params) of a combination that runs
+    past the view, or "?" (some path was not understood / the call was never reached)"""
+    ints = [p for p in fn.params if bare_ty(p["ty"]) in UNSIGNED64]
+    views = [p for p in fn.params if bare_ty(p["ty"]) == SV]
+    others = [p for p in fn.params if p not in ints and p not in views]
     reached = 0
+    unclear = False
     import itertools
     for S in (0, 1, 2, 3):
         for iv in itertools.product((0, 1, 2, 3, 4, NPOS), repeat=len(ints)):
             for vv in itertools.product((0, 1, 2, 4), repeat=len(views)):
-                ge = GuardEval(fn, S, {p["did"]: v for p, v in zip(ints, iv)}, {p["did"]: v for p, v in zip(views, vv)})
-                try:
-                    ge.run(fn.body)
-                    continue
-                except Stop as st:
-                    if st.kind not in ("scan", "return") or st.payload is None or not any(y["id"] in ids for y in ir.walk(st.payload)):
-                        continue
-                try:
-                    off = ge.ev(base_off) if base_off is not None else 0
-                    n = ge.ev(ln)
-                except Stop:
-                    return "?"
-                reached += 1
-                if off > S or n > S - off:
-                    return (S, off, n, iv, vv)
-    return None if reached else "?"
+                env = {p["did"]: v for p, v in zip(ints, iv)}
+                env.update({p["did"]: FOREIGN for p in others})
+                for kind, payload, reads, hits in explore(fn, S, env, {p["did"]: v for p, v in zip(views, vv)}, watch=(call["id"], base_off, ln)):
+                    for off, n in hits:
+                        reached += 1
+                        if off > S or n > S - off:
+                            return (S, off, n, iv, vv)
+                    if kind in ("opaque", "cut", "fallthrough") and not (kind == "fallthrough" and fn.d.get("ret", "") == "void"):
+                        unclear = True
+    return "?" if unclear or not reached else None
 
 
 SCAN_LEN_ARG = {"find": 1, "compare": 2, "memcmp": 2, "memcpy": 2, "memchr": 2, "copy": 2, "move": 2}
@@ -516,162 +1115,366 @@ def check_scan_bound(ck, fn, call):
 
 
 def check_pos_reaches(ck, tu):
-    """a position parameter that is range-checked must flow (through any chain of locals) into an address of the data:
-    ptr_ / begin()-family / an iterator local derived from them, plus or indexed by a value that depends on pos; or be
-    forwarded to another member"""
+    """the position parameter of at/substr/copy and the find family must take part in the address that is accessed: the member
+    is evaluated on the small model for every position inside the view; if the first byte it touches (the offset of the
+    sub-view / copy / scan) is the same for all of them, the operation ignores pos - a concrete pair of calls shows it"""
     for fn in tu.find(record=SV):
-        pos = [p for p in fn.params if p["name"] == "pos"]
-        if not pos or not fn.body:
+        name = fn.name
+        if not (name in ("at", "substr", "copy") or (name in DIRECTION and fn.params and bare_ty(fn.params[0]["ty"]) == SV)) or not fn.body:
             continue
-        did = pos[0]["did"]
-        guarded = any(match.binop(y, (">", ">=", "<", "<=")) and ref_of(match.binop(y, (">", ">=", "<", "<="))[1]) == did for y in fn.nodes())
-        if not guarded:
-            continue
-
-        def mentions(e, ids):
-            return any(y["k"] == "DeclRefExpr" and y["ref"]["id"] in ids for y in ir.walk(e))
-
-        def is_data(e, iters):
-            for y in ir.walk(e):
-                if y["k"] == "MemberExpr" and match.this_field(y) == "ptr_":
-                    return True
-                if "callee" in y and y.get("member_call") and y["callee"]["name"] in ("data",) + ITER_FACTORIES and strip_casts(kids(y)[0])["k"] == "This":
-                    return True
-                if y["k"] == "DeclRefExpr" and y["ref"]["id"] in iters:
-                    return True
-            return False
-        defs = []        # (target did, rhs expr)
-        for y in fn.nodes():
-            if y["k"] == "VarDecl" and kids(y) and kids(y)[0] is not None:
-                defs.append((y["did"], kids(y)[0]))
-            bq = match.binop(y, ("=", "+=", "-=")) if y["k"] in ("BinaryOperator", "CompoundAssignOperator", "CXXOperatorCallExpr") else None
-            if bq and ref_of(bq[1]) is not None:
-                defs.append((ref_of(bq[1]), bq[2]))
-        tainted, iters = {did}, set()
-        changed = True
-        while changed:
-            changed = False
-            for d, rhs in defs:
-                if d not in tainted and mentions(rhs, tainted):
-                    tainted.add(d); changed = True
-                if d not in iters and is_data(rhs, iters):
-                    iters.add(d); changed = True
-        in_access = False
-        for y in fn.nodes():
-            bq = match.binop(y, ("+", "-")) if y["k"] in ("BinaryOperator", "CXXOperatorCallExpr") else None
-            if bq:
-                for addr, idx in ((bq[1], bq[2]), (bq[2], bq[1])):
-                    if is_data(addr, iters) and mentions(idx, tainted):
-                        in_access = True
-            p2 = match.index_parts(y) if y["k"] in ("ArraySubscriptExpr", "CXXOperatorCallExpr") else None
-            if p2 and is_data(p2[0], iters) and mentions(p2[1], tainted):
-                in_access = True
-            if "callee" in y and y["callee"].get("record") == SV and y["callee"]["name"] not in ("size", "empty") and \
-                    any(mentions(a_, tainted) for a_ in kids(y)[1:] if a_ is not None):
-                in_access = True           # forwarded to another member
-        if in_access:
+        roles = guard_roles(fn, name)
+        seen = {}            # (S, n, ssz) -> {pos: touched index}
+        unclear = None
+        for S in (2, 3):
+            for pos in range(S):
+                args = {roles["pos"]: pos}
+                if "n" in roles:
+                    args[roles["n"]] = 5
+                if "out" in roles:
+                    args[roles["out"]] = FOREIGN
+                got = outcome(name, [q + (S,) for q in explore(fn, S, args, {roles["s"]: 1} if "s" in roles else {})])
+                if got[0] in ("access", "sub", "copy"):
+                    seen.setdefault(S, {})[pos] = got[1]
+                elif got[0] == "scan":
+                    seen.setdefault(S, {})[pos] = got[2]
+                elif got[0] == "opaque":
+                    unclear = unclear or "size %d, pos=%d: %s" % (S, pos, got[1])
+        moved = any(len(set(m.values())) > 1 for m in seen.values())
+        stuck = [(S, m) for S, m in sorted(seen.items()) if len(m) >= 2 and len(set(m.values())) == 1]
+        if moved:
             ck.ok("POS-REACHES-ACCESS", SV + "::" + sig(fn), "the validated position flows into the accessed address", nontrivial=False)
+        elif stuck and not unclear:
+            S, m = stuck[-1]
+            ps = sorted(m)
+            ck.violation("POS-REACHES-ACCESS", fn.qname, sig(fn), "pos is range-checked but never used to address the data: on a view of size %d the calls with pos=%d and "
+                         "pos=%d both start at byte %d - the operation always works on the same place of the view" % (S, ps[0], ps[-1], m[ps[0]]), fn.loc)
         else:
-            ck.violation("POS-REACHES-ACCESS", fn.qname, sig(fn), "pos is range-checked but never used to address the data: the operation always works on the beginning of the view", fn.loc)
+            ck.deferred.append("%s: how %s uses its position is not understood (%s)" % (fn.loc, name, unclear or "no access reached on the small model"))
 
 
-REL = {">": (False, True), "<=": (True, True), ">=": (True, False)}
+REL = {">": lambda c: c > 0, "<=": lambda c: c <= 0, ">=": lambda c: c >= 0, "<": lambda c: c < 0, "==": lambda c: c == 0, "!=": lambda c: c != 0}
+
+
+class NotUnderstood(Exception):
+    pass
+
+
+class RelEval:
+    """evaluates a relational member of StringView for one value c of this->compare(other): calls of compare() and of the
+    relational members on (*this, other) in either order are the atoms, everything else is integer / boolean logic"""
+
+    def __init__(self, fn, c):
+        self.fn, self.c = fn, c
+        self.other = fn.params[0]["did"]
+        self.env, self.alias = {}, {}
+
+    def operand(self, e):
+        e0 = strip_casts(e)
+        while e0 is not None and e0["k"] in ("ParenExpr", "MaterializeTemporaryExpr", "ExprWithCleanups", "CXXBindTemporaryExpr") and kids(e0):
+            e0 = strip_casts(kids(e0)[0])
+        if e0 is None:
+            return None
+        if e0["k"] == "This":
+            return "T"
+        d = match.deref_of(e0)
+        if d is not None and strip_casts(d)["k"] == "This":
+            return "T"
+        if e0["k"] == "DeclRefExpr":
+            if e0["ref"]["id"] == self.other:
+                return "O"
+            return self.alias.get(e0["ref"]["id"])
+        if e0["k"] in ("CXXConstructExpr", "CXXTemporaryObjectExpr") and bare_ty(e0.get("ty")) == SV and len(kids(e0)) == 1:
+            return self.operand(kids(e0)[0])
+        return None
+
+    def ev(self, e):
+        if e is None:
+            raise NotUnderstood("empty expression")
+        k = e["k"]
+        if k in ("ParenExpr", "ExprWithCleanups", "MaterializeTemporaryExpr", "ImplicitCastExpr", "CXXStaticCastExpr", "CStyleCastExpr", "CXXFunctionalCastExpr") and kids(e):
+            v = self.ev(kids(e)[0])
+            t = bare_ty(e.get("ty"))
+            if t == "bool":
+                return int(v != 0)
+            if t in ("int", "long", "bool") or k in ("ParenExpr", "ExprWithCleanups", "MaterializeTemporaryExpr"):
+                return v
+            raise NotUnderstood("conversion to %s" % t)
+        if k in ("IntegerLiteral", "CXXBoolLiteralExpr"):
+            return int(e["val"])
+        if k == "DeclRefExpr" and e["ref"]["id"] in self.env:
+            return self.env[e["ref"]["id"]]
+        if k == "UnaryOperator" and e.get("op") in ("!", "-"):
+            v = self.ev(kids(e)[0])
+            return int(not v) if e["op"] == "!" else -v
+        if k == "ConditionalOperator":
+            c0, a, b = kids(e)
+            return self.ev(a) if self.ev(c0) else self.ev(b)
+        if k == "BinaryOperator":
+            op = e["op"]
+            if op == "&&":
+                return int(bool(self.ev(kids(e)[0])) and bool(self.ev(kids(e)[1])))
+            if op == "||":
+                return int(bool(self.ev(kids(e)[0])) or bool(self.ev(kids(e)[1])))
+            if op in ("<", ">", "<=", ">=", "==", "!="):
+                x, y = self.ev(kids(e)[0]), self.ev(kids(e)[1])
+                return int({"<": x < y, ">": x > y, "<=": x <= y, ">=": x >= y, "==": x == y, "!=": x != y}[op])
+            if op in ("-", "+", "*"):
+                x, y = self.ev(kids(e)[0]), self.ev(kids(e)[1])
+                return x - y if op == "-" else x + y if op == "+" else x * y
+        if "callee" in e and e["callee"].get("record") == SV and e["callee"].get("did") != self.fn.did and len(kids(e)) == 2:
+            a, b = self.operand(kids(e)[0]), self.operand(kids(e)[1])
+            nm = e["callee"]["name"]
+            if a and b and (e.get("member_call") or k == "CXXOperatorCallExpr"):
+                c = 0 if a == b else self.c if a == "T" else -self.c
+                if nm == "compare":
+                    return c
+                if nm.startswith("operator") and nm[8:] in REL:
+                    return int(REL[nm[8:]](c))
+        raise NotUnderstood("%s at line %s" % (dtable.describe(e)[:50], e.get("l")))
+
+    def run(self, s):
+        """-> returned value, or None if s falls through"""
+        k = s["k"]
+        if k == "CompoundStmt":
+            for x in kids(s):
+                r = self.run(x)
+                if r is not None:
+                    return r
+            return None
+        if k == "ReturnStmt" and kids(s):
+            return int(self.ev(kids(s)[0]))
+        if k == "IfStmt" and "init" not in s and "condvar" not in s:
+            c, t, e = (kids(s) + [None])[:3]
+            br = t if self.ev(c) else e
+            return self.run(br) if br is not None else None
+        if k == "DeclStmt":
+            for v in kids(s):
+                if v["k"] != "VarDecl" or not kids(v) or kids(v)[0] is None:
+                    raise NotUnderstood("declaration at line %s" % s.get("l"))
+                if bare_ty(v.get("ty")) == SV:
+                    o = self.operand(kids(v)[0])
+                    if o is None:
+                        raise NotUnderstood("view %s at line %s" % (v.get("name"), s.get("l")))
+                    self.alias[v["did"]] = o
+                else:
+                    self.env[v["did"]] = self.ev(kids(v)[0])
+            return None
+        if k == "NullStmt":
+            return None
+        raise NotUnderstood("%s at line %s" % (k, s.get("l")))
+
+
+def rel_table(fn, op):
+    """-> None (agrees with c OP 0 for every sign of compare()), (c, got) of a disagreeing row; raises NotUnderstood"""
+    for c in (-1, 0, 1, -7, 7):
+        r = RelEval(fn, c).run(fn.body)
+        if r is None:
+            raise NotUnderstood("falls off the end")
+        if bool(r) != bool(REL[op](c)):
+            if abs(c) > 1:
+                raise NotUnderstood("the result depends on the magnitude of compare(), not only on its sign")
+            return c, bool(r)
+    return None
+
+
+def order_family(fn):
+    """which byte order the ordering primitives used directly in fn implement: set of 'unsigned' | 'signed' | 'unknown'"""
+    out = set()
+    for x in fn.nodes():
+        if "callee" in x and x["k"] == "CallExpr":
+            q = x["callee"]["qname"]
+            if q in ("std::char_traits::compare", "std::char_traits::lt", "memcmp", "std::memcmp"):
+                out.add("unsigned")
+            elif x["callee"]["name"] == "lexicographical_compare" and len(kids(x)) == 4 and "char" in bare_ty((kids(x)[0] or {}).get("ty")) \
+                    and "unsigned char" not in bare_ty((kids(x)[0] or {}).get("ty")):
+                out.add("signed")
+            elif q in ("std::min", "std::max", "std::equal", "std::distance"):
+                pass
+            else:
+                out.add("unknown")
+        elif "callee" in x and x["callee"].get("record") == SV and x["callee"]["name"] not in ("size", "length", "empty", "data") + ITER_FACTORIES:
+            out.add("unknown")
+        if x["k"] == "BinaryOperator" and x.get("op") in ("<", ">", "<=", ">="):
+            o = byte_order_of(x)
+            if o:
+                out.add(o)
+    return out
 
 
 def check_relational(ck, tu):
     for fn in tu.find(record=SV):
-        if fn.kind != "operator" or fn.d.get("op") not in REL or len(fn.params) != 1:
+        if fn.kind != "operator" or fn.d.get("op") not in (">", "<=", ">=") or len(fn.params) != 1 or not fn.body:
             continue
-        e = kids([x for x in fn.nodes() if x["k"] == "ReturnStmt"][0])[0]
-        neg = False
-        u = match.unop(e, ("!",))
-        if u:
-            neg = True
-            e = u[1]
-        e = strip_casts(e)
-        okk = False
-        if "callee" in e and e["callee"]["name"] in ("operator<", "compare"):
-            a = kids(e)
-            obj, arg = strip_casts(a[0]), strip_casts(a[1])
-            d = match.deref_of(arg)
-            swapped = ref_of(obj) == fn.params[0]["did"] and d is not None and strip_casts(d)["k"] == "This"
-            straight = obj["k"] == "This" and ref_of(arg) == fn.params[0]["did"]
-            if e["callee"]["name"] == "operator<" and (swapped or straight):
-                okk = (neg, swapped) == REL[fn.d["op"]]
+        op = fn.d["op"]
+        try:
+            bad = rel_table(fn, op)
+        except NotUnderstood as e:
+            ck.deferred.append("%s: operator%s is not understood as a function of compare() / operator<: %s" % (fn.loc, op, e))
+            continue
+        if bad is None:
+            ck.ok("REL-FROM-COMPARE", "%s::operator%s" % (SV, op), "derived from the same ordering primitive with the right operand order / negation")
         else:
-            b = match.binop(e, ("<", ">", "<=", ">="))
-            if b and const_int(b[2]) == 0 and match.call_named(b[1], ("compare",)):
-                okk = (b[0] == fn.d["op"]) and not neg
-        if okk:
-            ck.ok("REL-FROM-COMPARE", "%s::operator%s" % (SV, fn.d["op"]), "derived from the same ordering primitive with the right operand order / negation")
-        else:
-            ck.violation("REL-FROM-COMPARE", fn.qname, "operator" + fn.d["op"], "operator%s is not the matching derivation of operator< / compare()" % fn.d["op"], fn.loc)
+            c, got = bad
+            ck.violation("REL-FROM-COMPARE", fn.qname, "operator" + op, "operator%s is not the matching derivation of operator< / compare(): when this->compare(other) %s 0 "
+                         "it returns %s" % (op, "<" if c < 0 else ">" if c > 0 else "==", str(got).lower()), fn.loc)
     # operator< and compare must agree: both built on one primitive
-    lt = [f for f in tu.find(record=SV) if f.kind == "operator" and f.d.get("op") == "<"]
+    lt = [f for f in tu.find(record=SV) if f.kind == "operator" and f.d.get("op") == "<" and len(f.params) == 1 and f.body]
     cmpf = [f for f in tu.find(record=SV, name="compare") if len(f.params) == 1 and "StringView" in f.params[0]["ty"]]
     if lt and cmpf:
-        def prims(f):
-            return sorted(set(x["callee"]["qname"] for x in f.nodes() if "callee" in x and x["k"] == "CallExpr" and not x["callee"]["qname"].startswith("std::min")))
-        pl, pc = prims(lt[0]), prims(cmpf[0])
-        via = any(x["callee"]["name"] == "compare" for x in lt[0].nodes() if "callee" in x)
-        if via or pl == pc:
-            ck.ok("REL-FROM-COMPARE", SV + "::operator< vs compare", "operator< and compare() are built on the same primitive (%s)" % ("compare" if via else ",".join(pc)))
-        else:
-            ck.violation("REL-FROM-COMPARE", lt[0].qname, "lt-vs-compare", "operator< (%s) and compare() (%s) order bytes with different primitives" % (pl, pc), lt[0].loc)
+        try:
+            bad = rel_table(lt[0], "<")
+            if bad is None:
+                ck.ok("REL-FROM-COMPARE", SV + "::operator< vs compare", "operator< and compare() are built on the same primitive (compare)")
+            else:
+                ck.violation("REL-FROM-COMPARE", lt[0].qname, "lt-vs-compare", "operator< disagrees with compare(): when this->compare(other) %s 0 it returns %s"
+                             % ("<" if bad[0] < 0 else ">" if bad[0] > 0 else "==", str(bad[1]).lower()), lt[0].loc)
+        except NotUnderstood as e:
+            fl, fc = order_family(lt[0]), order_family(cmpf[0])
+            if fl == {"unsigned"} and fc == {"unsigned"}:
+                ck.ok("REL-FROM-COMPARE", SV + "::operator< vs compare", "operator< and compare() order bytes with primitives of the same (unsigned) family")
+            elif {fl and min(fl), fc and min(fc)} == {"signed", "unsigned"} and len(fl) == 1 and len(fc) == 1:
+                ck.violation("REL-FROM-COMPARE", lt[0].qname, "lt-vs-compare", "operator< (%s byte order) and compare() (%s byte order) order bytes with different primitives: "
+                             "they disagree on bytes 0x80..0xFF" % (min(fl), min(fc)), lt[0].loc)
+            else:
+                ck.deferred.append("%s: operator< is neither derived from compare() nor built on a known byte-ordering primitive: %s" % (lt[0].loc, e))
 
 
 FWD = ("find", "rfind", "find_first_of", "find_last_of", "find_first_not_of", "find_last_not_of")
+
+
+def resolve_arg(fn, e, defs, written, depth=0):
+    """a forwarded argument as a term over the parameters: ('param', i) | ('int', v) | ('addr', i) | ('view', term, ...) |
+    ('strlen', term) | ('?', text).  Locals that are defined once and never written afterwards stand for their initialiser."""
+    e0 = strip_casts(e)
+    while e0 is not None and e0["k"] in ("ParenExpr", "MaterializeTemporaryExpr", "ExprWithCleanups", "CXXBindTemporaryExpr") and kids(e0):
+        e0 = strip_casts(kids(e0)[0])
+    if e0 is None:
+        return ("?", "nothing")
+    c = const_int(e0)
+    if c is not None and e0["k"] != "DeclRefExpr":
+        return ("int", c & M64)
+    if e0["k"] == "DefaultArg":
+        return ("?", "default argument") if const_int(e0) is None else ("int", const_int(e0) & M64)
+    if e0["k"] == "DeclRefExpr":
+        d = e0["ref"]["id"]
+        i = fn.param_index(d)
+        if i is not None:
+            return ("param", i) if d not in written else ("?", "parameter %s is modified" % e0["ref"]["name"])
+        if len(defs.get(d, [])) == 1 and d not in written and depth < 6:
+            return resolve_arg(fn, defs[d][0], defs, written, depth + 1)
+        if c is not None:
+            return ("int", c & M64)
+        return ("?", dtable.describe(e0)[:40])
+    if e0["k"] == "UnaryOperator" and e0.get("op") == "&":
+        t = resolve_arg(fn, kids(e0)[0], defs, written, depth + 1)
+        return ("addr", t[1]) if t[0] == "param" else ("?", dtable.describe(e0)[:40])
+    if e0["k"] in ("CXXConstructExpr", "CXXTemporaryObjectExpr") and bare_ty(e0.get("ty")) == SV:
+        return ("view",) + tuple(resolve_arg(fn, a, defs, written, depth + 1) for a in kids(e0) if a is not None and a["k"] != "DefaultArg")
+    if "callee" in e0 and e0["callee"]["name"] in ("strlen", "length") and len(kids(e0)) == 1 and \
+            (e0["callee"]["name"] == "strlen" or e0["callee"]["qname"] == "std::char_traits::length"):
+        return ("strlen", resolve_arg(fn, kids(e0)[0], defs, written, depth + 1))
+    return ("?", dtable.describe(e0)[:40])
+
+
+def has_unknown(t):
+    return t[0] == "?" or any(isinstance(x, tuple) and has_unknown(x) for x in t[1:])
+
+
+def fmt_term(fn, t):
+    if t[0] == "param":
+        return fn.params[t[1]]["name"] or "#%d" % t[1]
+    if t[0] == "int":
+        return "npos" if t[1] == NPOS else str(t[1])
+    if t[0] == "addr":
+        return "&" + (fn.params[t[1]]["name"] or "#%d" % t[1])
+    if t[0] == "view":
+        return "StringView(%s)" % ", ".join(fmt_term(fn, x) for x in t[1:])
+    if t[0] == "strlen":
+        return "strlen(%s)" % fmt_term(fn, t[1])
+    return "?"
 
 
 def check_overloads(ck, tu):
     for fn in tu.find(record=SV):
         if fn.name not in FWD or not fn.params or "StringView" in fn.params[0]["ty"]:
             continue
-        calls = [x for x in fn.nodes() if "callee" in x and x["callee"]["name"] == fn.name and x.get("member_call")]
-        okk = False
-        why = "does not forward to the StringView overload"
+        calls = [x for x in fn.nodes() if "callee" in x and x["callee"]["name"] == fn.name and x.get("member_call") and x["callee"].get("record") == SV]
         if not calls:
             ck.ok("OVERLOAD-ROLES", SV + "::" + sig(fn), "own implementation (not a forwarding overload): covered by SCAN-BOUND only", nontrivial=False)
             continue
-        if len(calls) == 1:
-            a = kids(calls[0])[1:]
-            view = strip_casts(a[0])
-            while view["k"] in ("CXXFunctionalCastExpr",):
-                view = strip_casts(kids(view)[0])
-            vargs = kids(view) if view["k"] in ("CXXConstructExpr", "CXXTemporaryObjectExpr") else []
-            pn = {p["name"]: p["did"] for p in fn.params}
-            pos_ok = len(a) > 1 and ref_of(a[1]) == pn.get("pos")
-            if fn.params[0]["ty"] == "char":
-                ad = strip_casts(vargs[0]) if vargs else None
-                okk = bool(pos_ok and len(vargs) == 2 and ad["k"] == "UnaryOperator" and ad["op"] == "&" and ref_of(kids(ad)[0]) == fn.params[0]["did"] and const_int(vargs[1]) == 1)
-                why = "the character overload must search for StringView(&c, 1) at pos"
-            elif len(fn.params) == 3:
-                okk = bool(pos_ok and len(vargs) == 2 and ref_of(vargs[0]) == fn.params[0]["did"] and ref_of(vargs[1]) == pn.get("n"))
-                why = "the (s, pos, n) overload must search for StringView(s, n) at pos"
-            else:
-                okk = bool(pos_ok and len(vargs) == 1 and ref_of(vargs[0]) == fn.params[0]["did"])
-                why = "the (s, pos) overload must search for StringView(s) at pos"
-        if okk:
-            ck.ok("OVERLOAD-ROLES", SV + "::" + sig(fn), "forwards (pattern, pos) in their roles", nontrivial=False)
+        # roles by position and type, as fixed by the std::string_view interface: (char c, pos) | (const char* s, pos, n) | (const char* s, pos)
+        tys = [bare_ty(p["ty"]) for p in fn.params]
+        if tys == ["char", "unsigned long"]:
+            want = (("view", ("addr", 0), ("int", 1)), ("param", 1))
+            alts = ()
+            why = "the character overload must search for StringView(&c, 1) at pos"
+        elif tys == ["char *", "unsigned long", "unsigned long"]:
+            want = (("view", ("param", 0), ("param", 2)), ("param", 1))
+            alts = ()
+            why = "the (s, pos, n) overload must search for StringView(s, n) at pos"
+        elif tys == ["char *", "unsigned long"]:
+            want = (("view", ("param", 0)), ("param", 1))
+            alts = ((("view", ("param", 0), ("strlen", ("param", 0))), ("param", 1)),)
+            why = "the (s, pos) overload must search for StringView(s) at pos"
         else:
-            ck.violation("OVERLOAD-ROLES", fn.qname, sig(fn), why, fn.loc)
+            ck.deferred.append("%s: parameters of the %s overload are not those of a std::string_view overload: %s" % (fn.loc, fn.name, tys))
+            continue
+        straight = not any(y["k"] in ("IfStmt", "ForStmt", "WhileStmt", "DoStmt", "SwitchStmt", "ConditionalOperator", "GotoStmt", "CXXTryStmt") for y in fn.nodes())
+        call = calls[0]
+        a = [x for x in kids(call)[1:] if x is not None]
+        target = tu.by_did.get(call["callee"].get("did"))
+        obj = strip_casts(kids(call)[0])
+        defs = local_defs(fn)
+        written = {ref_of(match.binop(y, ("=", "+=", "-="))[1]) for y in fn.nodes()
+                   if y["k"] in ("BinaryOperator", "CompoundAssignOperator", "CXXOperatorCallExpr") and match.binop(y, ("=", "+=", "-="))}
+        written |= {ref_of(match.unop(y, ("++", "--"))[1]) for y in fn.nodes() if match.unop(y, ("++", "--"))}
+        rets = [y for y in fn.nodes() if y["k"] == "ReturnStmt"]
+        returned = len(rets) == 1 and kids(rets[0]) and (strip_casts(kids(rets[0])[0]) is call or
+                                                          (ref_of(kids(rets[0])[0]) is not None and len(defs.get(ref_of(kids(rets[0])[0]), [])) == 1
+                                                           and strip_casts(defs[ref_of(kids(rets[0])[0])][0]) is call and ref_of(kids(rets[0])[0]) not in written))
+        if len(calls) == 1 and straight and obj["k"] == "This" and len(a) == 3 and target is not None and tys == ["char *", "unsigned long"] and \
+                [bare_ty(q["ty"]) for q in target.params] == ["char *", "unsigned long", "unsigned long"]:
+            # the (s, pos) overload expressed through the (s, pos, n) overload: n must be the length of the C string
+            got3 = tuple(resolve_arg(fn, x, defs, written) for x in a)
+            if got3 == (("param", 0), ("param", 1), ("strlen", ("param", 0))) and returned:
+                ck.ok("OVERLOAD-ROLES", SV + "::" + sig(fn), "forwards (s, pos, strlen(s)) to the (s, pos, n) overload", nontrivial=False)
+            elif any(has_unknown(t) for t in got3) or not returned:
+                ck.deferred.append("%s: arguments forwarded by the %s overload not understood: %s(%s)" % (fn.loc, sig(fn), fn.name, ", ".join(fmt_term(fn, t) for t in got3)))
+            else:
+                ck.violation("OVERLOAD-ROLES", fn.qname, sig(fn), "%s: it calls %s(%s)" % (why, fn.name, ", ".join(fmt_term(fn, t) for t in got3)), fn.loc)
+            continue
+        if len(calls) != 1 or not straight or obj["k"] != "This" or len(a) != 2 or target is None or not target.params or bare_ty(target.params[0]["ty"]) != SV:
+            ck.deferred.append("%s: the %s overload calls %s, but not as one straight-line forwarding call on *this to the StringView overload" % (fn.loc, sig(fn), fn.name))
+            continue
+        got = (resolve_arg(fn, a[0], defs, written), resolve_arg(fn, a[1], defs, written))
+        if got == want or got in alts:
+            if returned:
+                ck.ok("OVERLOAD-ROLES", SV + "::" + sig(fn), "forwards (pattern, pos) in their roles", nontrivial=False)
+            else:
+                ck.deferred.append("%s: the %s overload forwards correctly but what it returns is not understood" % (fn.loc, sig(fn)))
+        elif has_unknown(got[0]) or has_unknown(got[1]):
+            ck.deferred.append("%s: arguments forwarded by the %s overload not understood: %s(%s, %s)" % (fn.loc, sig(fn), fn.name, fmt_term(fn, got[0]), fmt_term(fn, got[1])))
+        else:
+            ck.violation("OVERLOAD-ROLES", fn.qname, sig(fn), "%s: it searches for %s at %s" % (why, fmt_term(fn, got[0]), fmt_term(fn, got[1])), fn.loc)
 
 
 def run(ck):
     ck.explanation = (
-        "GUARD-TABLES: the integer prefix (range checks, clamping, early returns, start of the scan) of at/substr/copy and the six find-family "
-        "members is evaluated on a small model (view size 0..3, pos incl. npos and npos-1, n, argument size) with 64-bit wrap-around and compared with "
-        "std::string_view's rules; because these prefixes are piecewise linear with unit coefficients the small model covers every ordering of "
-        "(pos, size, argument size). NO-CSTR-PRIMITIVE / BYTE-ORDER-UNSIGNED: no NUL-terminated primitive and no signed-char ordering inside the "
-        "class; SCAN-BOUND: raw mem*/char_traits calls are limited to size_ - offset; POS-REACHES-ACCESS: a validated position is part of the "
-        "accessed address; REL-FROM-COMPARE: relational operators derive from one primitive with the right operand order; OVERLOAD-ROLES: the 18 "
-        "forwarding overloads pass (pattern, pos, n) in their roles. Search results as values are not decided.")
+        "GUARD-TABLES: at/substr/copy and the six find-family members are evaluated on a small model (view size 0..3, pos incl. npos and "
+        "npos-1, n, argument size) with 64-bit wrap-around: integers, positions of the view (pointers, iterators, reverse iterators), sub-views and "
+        "bytes read from memory are the values; the evaluation follows locals, loops, early returns and private helpers up to the first byte of the "
+        "view that is read or the range handed to an algorithm, and what happens there (throw / fixed answer / offset and length / start and "
+        "direction of the scan) is compared with std::string_view's rules; because these prefixes are piecewise linear with unit coefficients "
+        "the small model covers every ordering of (pos, size, argument size). A difference is reported only for an evaluated point of the model; "
+        "a construct the evaluation does not understand is 'cannot decide'. NO-CSTR-PRIMITIVE / BYTE-ORDER-UNSIGNED: no NUL-terminated "
+        "primitive on memory of a view and no signed-char ordering inside the class; SCAN-BOUND: raw mem*/char_traits calls are limited to "
+        "size_ - offset (evaluated on the same model where the shape is not the usual one); POS-REACHES-ACCESS: the first byte touched moves with "
+        "pos; REL-FROM-COMPARE: truth table of the relational members over the sign of compare(); OVERLOAD-ROLES: the 18 forwarding overloads "
+        "pass (pattern, pos, n) in their roles (roles by position and type). Search results as values are not decided.")
     tu = ir.extract("witness/C18_string_view.cpp")
-    check_primitives(ck, tu)
-    check_guards(ck, tu)
-    check_pos_reaches(ck, tu)
-    check_relational(ck, tu)
-    check_overloads(ck, tu)
+    # a rule that cannot decide its construct (exit 2) must not hide what another rule reports
+    for rule in (check_primitives, check_guards, check_pos_reaches, check_relational, check_overloads):
+        ck.guarded(lambda: rule(ck, tu))
     ck.floor("GUARD-TABLES", 9)
     ck.floor("POS-REACHES-ACCESS", 8)
     ck.floor("REL-FROM-COMPARE", 4)
